@@ -167,7 +167,7 @@ def run(c):
                 e = json.loads(l)
                 op = e["ops"][-1]
                 # flagged producer: every call is durable, so the class is (pre-state without the flush counter, call)
-                key = (e["cls"],) if comp == "pool" else (e["cls"].rsplit("f", 1)[0], op["op"], op.get("db"), op.get("v"))
+                key = (e["cls"],) if comp == "pool" else (e["cls"].rsplit("f", 1)[0], op["op"], op.get("db"), op.get("v"), op.get("via"))
                 groups.setdefault(key, []).append(l)
         picked = []
         for key in sorted(groups, key=lambda k: tuple(str(x) for x in k)):
@@ -190,6 +190,7 @@ def run(c):
             c.guard(comp + "_" + g, stats.get(comp + "_" + g, 0))
     c.guard("flagged_verdict_unsynced", stats.get("flagged_verdict_unsynced", 0))
     c.guard("pool_histories_with_large_values", stats.get("pool_histories_with_large_values", 0))
+    c.guard("flagged_last_call_through_long_lived_batch", stats.get("flagged_last_call_through_long_lived_batch", 0))
     # flushes of one database that were split into several non-empty write batches (large values)
     split = 0
     with open(traces["pool"]) as f:
